@@ -3,7 +3,6 @@ from __future__ import annotations
 import asyncio
 import logging
 import weakref
-from collections import deque
 from collections.abc import AsyncIterator
 from datetime import datetime, timezone
 from typing import Any
@@ -71,7 +70,8 @@ class MemoryWorkflowStore(AbstractWorkflowStore):
             weakref.WeakValueDictionary()
         )
         self.max_completed = max_completed
-        self._terminal_queue: deque[str] = deque()
+        # one entry per currently-terminal handler, oldest first (dicts keep insertion order)
+        self._terminal_queue: dict[str, None] = {}
 
     def create_state_store(
         self,
@@ -106,8 +106,9 @@ class MemoryWorkflowStore(AbstractWorkflowStore):
 
     async def update(self, handler: PersistentHandler) -> None:
         self.handlers[handler.handler_id] = handler
+        self._terminal_queue.pop(handler.handler_id, None)
         if is_terminal_status(handler.status):
-            self._terminal_queue.append(handler.handler_id)
+            self._terminal_queue[handler.handler_id] = None
             self._evict_oldest_completed()
 
     async def delete(self, query: HandlerQuery) -> int:
@@ -118,19 +119,21 @@ class MemoryWorkflowStore(AbstractWorkflowStore):
         ]
         for handler_id in to_delete:
             del self.handlers[handler_id]
+            self._terminal_queue.pop(handler_id, None)
         return len(to_delete)
 
     def _evict_oldest_completed(self) -> None:
         """Remove the oldest completed handlers when the cap is exceeded.
 
-        Uses _terminal_queue (insertion-ordered deque) for O(1) eviction
+        Uses _terminal_queue (insertion-ordered dict) for O(1) eviction
         instead of scanning and sorting all handlers.
         """
         if self.max_completed is None:
             return
 
         while len(self._terminal_queue) > self.max_completed:
-            handler_id = self._terminal_queue.popleft()
+            handler_id = next(iter(self._terminal_queue))
+            del self._terminal_queue[handler_id]
             handler = self.handlers.get(handler_id)
             if handler is None:
                 # Already removed (e.g. via delete()), skip.
